@@ -498,5 +498,6 @@ func l3(w *World, r *Report) {
 			tree = len(nt) == 1 && sameValue(fs.Val, extractOf(callValue(nt[0]), 0))
 		}
 	}
-	r.Check(fresh && tree, "L-3", "ImmutableLedgerAt:fresh-overlay", "the returned ledger has its own empty overlay over the loaded tree", "the returned ledger shares an overlay or does not wrap the loaded tree", fnSite(w, fn))
+	r.Check(fresh, "L-3", "ImmutableLedgerAt:fresh-overlay", "the returned ledger has its own empty overlay", "the returned ledger does not get a fresh overlay of its own", fnSite(w, fn))
+	r.Check(tree, "L-3", "ImmutableLedgerAt:own-tree", "the returned ledger wraps the tree object created for this request", "the returned ledger wraps a tree object that was not created for this request (a shared or cached iavl tree keeps the 'latest version' it saw when it was opened and serves later state for an old height)", fnSite(w, fn))
 }
